@@ -36,6 +36,15 @@ Definition findwalks (n : nat) (A : mat Z) : option (nat -> mat Z) :=
 Definition wlq (n : nat) (Wq : nat -> mat Z) (q : nat) : Z := sum2 (Wq q) n.
 Definition twalk (n : nat) (Wq : nat -> mat Z) : Z := sumn (wlq n Wq) n.
 
+(* ---------------- size of the counts (the code stores them in a float64 array: exact below 2^53) ---------------- *)
+Definition indeg (n : nat) (A : mat Z) (j : nat) : Z := sumn (fun k => binz A k j) n.
+Definition maxindeg (n : nat) (A : mat Z) : Z := fold_right Z.max 0 (map (indeg n A) (seq 0 n)).
+(* n^2 * (1 + D + ... + D^(n-1)): a bound of twalk, hence of every entry and of every partial sum *)
+Definition fw_bound (n : nat) (D : Z) : Z := Z.of_nat n * Z.of_nat n * sumn (fun q => D ^ Z.of_nat q) n.
+Definition two53 : Z := 2 ^ 53.
+(* every integer the routine forms is a sum of non-negative counts and is at most twalk *)
+Definition fw_exact (n : nat) (Wq : nat -> mat Z) : bool := Z.ltb (twalk n Wq) two53.
+
 (* ---------------- walks ---------------- *)
 (* [walk n A i j w]: w is the node sequence of a walk from i to j in the graph of the nonzero entries of A *)
 Inductive walk (n : nat) (A : mat Z) : nat -> nat -> list nat -> Prop :=
@@ -55,6 +64,18 @@ Definition run_findwalks (rows : list (list Z)) : option (list (list (list Z)) *
   match findwalks n (of_rows 0 rows) with
   | None => None
   | Some Wq => Some (map (fun q => to_rows n n (Wq q)) (seq 0 n), twalk n Wq, map (wlq n Wq) (seq 0 n))
+  end.
+(* the same with the two exactness indicators: (all of the output is below 2^53, the a-priori bound is below 2^53) *)
+Definition run_findwalks_x (rows : list (list Z))
+  : option (list (list (list Z)) * Z * list Z * (bool * bool)) :=
+  let n := length rows in let A := of_rows 0 rows in
+  match findwalks n A with
+  | None => None
+  | Some Wq0 =>
+    let Wl := map (fun q => to_rows n n (Wq0 q)) (seq 0 n) in
+    let Wq : nat -> mat Z := fun q => of_rows 0 (nth q Wl []) in
+    Some (Wl, twalk n Wq, map (wlq n Wq) (seq 0 n),
+          (fw_exact n Wq, Z.ltb (fw_bound n (maxindeg n A)) two53))
   end.
 (* number of enumerated walks, for the cross-check against the matrix power *)
 Definition run_walkcount (rows : list (list Z)) (q : nat) : list (list nat) :=
